@@ -4,7 +4,9 @@ import re
 from vlib.runner import Suite
 
 HARNESS = ("h_chain", ["h_chain.cpp"], {"extra_flags": ["-fno-access-control", "-I/verif/harness/shim"]})
-TYPES = ["int", "void", "uptr", "ref", "counted"]
+TYPES = ["int", "void", "uptr", "ref", "counted", "vec"]
+PWD_TYPES = ["int", "uptr", "counted", "vec"]      # payload types a promise_with_default<T> is instantiated with
+PWD_V, PWD_VP = 77, 78                             # compile-time defaults of promise_with_default_v / _vp in the harness
 RKINDS = ["value", "exc", "drop"]
 WKINDS = ["coro", "sync", "cb", "hasv"]
 
@@ -57,7 +59,19 @@ def gen_random(rng, count, min_res, max_res, min_wait, max_wait):
             T = "thrower"
             threads = [("r throwv" if (t.startswith("r ") and rng.random() < 0.5) else t) for t in threads]
         c = make_case(threads, sched, T)
-        if "d" not in kinds and (force_assign or rng.random() < 0.5):
+        pwd = None
+        if T in PWD_TYPES and rng.random() < 0.35:
+            # the promise object is a promise_with_default (its destruction resolves with a default value instead of no-value):
+            # the plain class with a run-time default, or (int only) the _v / _vp classes with a compile-time default
+            variant = rng.choice(["def", "def", "defv", "defvp"]) if T == "int" else "def"
+            pwd = (variant, {"def": 40 + rng.randrange(9), "defv": PWD_V, "defvp": PWD_VP}[variant])
+            c["lines"].insert(1, "pwd %s %d" % pwd)
+        if "d" not in kinds and pwd and rng.random() < 0.5:
+            # the controller move-assigns the promise into a fresh promise_with_default (own default va) and destroys that one:
+            # the future must get the default of the object that owned it
+            va = pwd[1] if pwd[0] != "def" else 60 + rng.randrange(9)
+            c["lines"].insert(len(c["lines"]) - 2, "assign-from %d" % va)
+        elif "d" not in kinds and (force_assign or rng.random() < 0.5):
             # the controller ends the promise's life by move-assigning an empty promise over it (must drop the future)
             c["lines"].insert(len(c["lines"]) - 2, "assign-end")
         cases.append(c)
@@ -94,7 +108,7 @@ def parse(case, out):
     """-> dict with threads (kinds), rets, obs, final, released, flags"""
     threads = [l.split() for l in case["lines"][1:] if l.split()[0] in ("r", "w", "d")]
     info = {"threads": threads, "rets": {}, "obs": {}, "final": None, "released": {}, "deadlock": False,
-            "crash": False, "assert": None, "ops": [], "dtor_resolved": False, "counted": None}
+            "crash": False, "assert": None, "ops": [], "dtor_resolved": False, "counted": None, "anomalies": []}
     for l in out:
         w = l.split()
         if not w:
@@ -115,11 +129,37 @@ def parse(case, out):
             info["assert"] = l
         elif w[0] == "s":
             info["ops"].append(l)
-            if w[2:5] == ["load", "owner", "ptr"] and int(w[1]) < len(threads) and threads[int(w[1])][0] == "d":
+            # ~promise: `load owner ptr`; ~promise_with_default: `xchg owner ptr>null` (its set_value(def) claims)
+            if (w[2:5] == ["load", "owner", "ptr"] or w[2:5] == ["xchg", "owner", "ptr>null"]) \
+                    and int(w[1]) < len(threads) and threads[int(w[1])][0] == "d":
                 info["dtor_resolved"] = True
-        elif w[0] == "counted":
+        elif w[0] in ("counted", "thrower"):
             info["counted"] = l
+        elif w[0] == "anomaly":
+            info["anomalies"].append(l)
     return info
+
+
+def end_outcome(case, T):
+    """what the end of the promise's life resolves the future to when no call has won: no-value for a plain promise and for
+    move-assignment *over* the promise, the default value for a promise_with_default (also after it was move-assigned
+    into another promise_with_default object: the default travels with the ownership)"""
+    lines = [l.split() for l in case["lines"]]
+    pwd = next((l for l in lines if l[0] == "pwd"), None)
+    if pwd is None or any(l[0] == "assign-end" for l in lines):
+        return "canceled"
+    return "v:" + pwd[2]
+
+
+def expected_result(case, info, T):
+    """the result the statement demands: the payload of the unique winner (a call that reported success, else the end of the
+    promise's life); None when the trace has no unique winner (reported separately)"""
+    wins = [t for t, r in info["rets"].items() if 1 in r]
+    if len(wins) > 1:
+        return None
+    if len(wins) == 1:
+        return expected_outcome(info["threads"][wins[0]], T)
+    return end_outcome(case, T)
 
 
 def expected_outcome(tline, T):
@@ -158,5 +198,31 @@ class ChainSuite(Suite):
             switches += sum(1 for a, b in zip(tids, tids[1:]) if a != b)
             dl += 1 if "deadlock" in o else 0
         top = dict(sorted(shapes.items(), key=lambda kv: -kv[1])[:12])
+        # API spellings / resolver kinds selected by the input (see harness/h_chain.cpp)
+        sp = {"pwd def": 0, "pwd defv": 0, "pwd defvp": 0, "pwd destroyed by a d thread": 0, "assign-from": 0, "assign-end": 0,
+              "value via operator()": 0, "value via static set/resolve (derived class)": 0, "throwv": 0}
+        syncs = ["wait", "force_wait", "sync+value", "force_sync+value", "join", "operator*"]
+        excs = ["operator()(temporary)", "operator()(named)", "set_value(const named)", "set_exception", "unhandled_exception"]
+        for c in cases:
+            ls = [l.split() for l in c["lines"][1:-1]]
+            th = [l for l in ls if l[0] in ("r", "w", "d")]
+            for l in ls:
+                if l[0] == "pwd":
+                    sp["pwd " + l[1]] += 1
+                    if any(t[0] == "d" for t in th):
+                        sp["pwd destroyed by a d thread"] += 1
+                elif l[0] in ("assign-from", "assign-end"):
+                    sp[l[0]] += 1
+            for i, t in enumerate(th):
+                if t[:2] == ["w", "sync"]:
+                    k = "sync waiter via " + syncs[i % 6]
+                    sp[k] = sp.get(k, 0) + 1
+                elif t[:2] == ["r", "value"]:
+                    sp["value via static set/resolve (derived class)" if int(t[2]) % 3 == 2 else "value via operator()"] += 1
+                elif t[:2] == ["r", "exc"]:
+                    k = "exc via " + excs[int(t[2]) % 5]
+                    sp[k] = sp.get(k, 0) + 1
+                elif t[:2] == ["r", "throwv"]:
+                    sp["throwv"] += 1
         return {"value_types": types, "distinct_shapes": len(shapes), "top_shapes": top,
-                "context_switches_total": switches, "deadlocks_reported": dl}
+                "context_switches_total": switches, "deadlocks_reported": dl, "spellings": sp}
